@@ -365,6 +365,9 @@ Proof.
     destruct (h_close (c_io (d_cfg d)) (MData (ms_active_id m)) (ms_active m)) as [a1 ev7]. cbn [fst] in *.
     pose proof (ms_close_older_spec (c_io (d_cfg d)) (ms_older m)) as Hcl.
     destruct (ms_close_older (c_io (d_cfg d)) (ms_older m)) as [o1 ev8]. cbn [fst] in Hcl.
+    destruct (db_sync d2) as [d3 evS] eqn:Hsy.
+    destruct (db_sync_files _ _ _ Hsy) as (Sg1 & Sg2 & _).
+    rewrite <- Sg1 in Sf1. rewrite <- Sg2 in Sf2.
     injection Hm as <- <- <- _. cbn [k_data k_hint k_merge].
     destruct (merged_log_denotes d1 M order HI1 P1 HR1 Hemp1) as (_ & Hden & Hplain).
     { intros fid f Hg. apply (Hord eq_refl). exact (Hold1 _ _ Hg). }
